@@ -1,5 +1,6 @@
 import Sgz.Proofs.Fetch
 import Sgz.Model.Container
+import Sgz.Proofs.HeaderReads
 /-!
 # C07 — I/O proportionality
 
@@ -103,5 +104,16 @@ theorem open_touches_header_blocks_only (nHB : Nat) (h : 1 ≤ nHB) :
 example : (⟨5, 6, 300, 4, 4, 256, 64⟩ : Geo).Valid ∧ (⟨70, 65, 9, 64, 64, 4, 16⟩ : Geo).Valid
     ∧ (⟨1, 9, 70, 1, 16, 64, 64⟩ : Geo).Valid2d := by decide
 example : (Loader.ilSet ⟨5, 6, 300, 4, 4, 256, 64⟩ 4).fetches = [(16384, 16384)] := by decide
+
+/-- a header look-up on a structured file reads exactly four bytes of every stored header array — each array once, also
+when several fields share it — at the position of the trace, and keeps nothing (Model/HeaderReads) -/
+theorem structured_header_reads (h : HeaderReads.HFile) (il : Nat) (st : HeaderReads.HSt) (t : Nat)
+    (hs : h.structured = true) (h3 : h.is3d = true) (ht : t < h.grid) :
+    (HeaderReads.genTraceHeader h il st t false).1 = st ∧
+    ∃ o, (HeaderReads.genTraceHeader h il st t false).2 = .ok o
+      ∧ o.fetches = (HeaderReads.distinctArrays h).map (fun k => (HeaderReads.offsetOf h k + 4 * t, 4))
+      ∧ (HeaderReads.distinctArrays h).Nodup
+      ∧ ∀ k, k ∈ HeaderReads.distinctArrays h ↔ ∃ f, f < h.tbl.length ∧ HeaderReads.arrayOf h f = some k :=
+  HeaderReads.structured_header_io h il st t hs h3 ht
 
 end Sgz.Props.C07
